@@ -79,6 +79,7 @@ type CbRec struct {
 	Hashes []string  `json:"hashes,omitempty"`
 	Key    int       `json:"key,omitempty"`
 	Tx     string    `json:"tx,omitempty"`
+	Pool   *[]string `json:"pool,omitempty"`
 	Which  string    `json:"which,omitempty"`
 	Perm   []int     `json:"perm,omitempty"`
 }
@@ -196,7 +197,7 @@ func (n *Node) build() {
 				r[i] = t
 				hh[i] = string(t)
 			}
-			n.cb(CbRec{K: "GetVerified", Hashes: hh})
+			n.cb(CbRec{K: "GetVerified", Pool: &hh})
 			return r
 		}),
 		dbft.WithRequestTx[H](func(h ...H) {
